@@ -1,5 +1,5 @@
 # Single source of truth for MANIFEST.json (bin/mkmanifest regenerates it).
-HOOK_COMMITS = ['ba9d497', '86002f7', 'df75f69']
+HOOK_COMMITS = ['ba9d497', '86002f7', 'df75f69', '4299eec']
 NOTES = 'see DESIGN.md §9 (as built)'
 NOT_APPLICABLE = {}
 CLAIMS = {}
@@ -113,4 +113,17 @@ CLAIMS['C18'] = dict(
     ref='DESIGN.md §4 C18',
     note='race freedom is an auxiliary -race run of the concurrent scenarios (both tiers), not model checking; scope attributes, exemplars, WithProducer are not modelled; five defects were repaired in /repo (cd08668, 3014c3f, bd6d39e, f4d6e42, 0acaf2b)',
     technique='TLA+ naming/label/family model with admissible alternatives, TLC edge replay on the real Prometheus exporter + TLC trace validation',
+)
+
+CLAIMS['C02'] = dict(
+    text='MetricSum.tla is an implementation-shaped model of synchronous sums (per-reader pipeline mutex, per-stream valueMap mutex, Add = per-pipeline lock/add/unlock steps, produce = one critical section per stream with delta copy+clear+start move, periodic reader run loop / flush handshake / Shutdown with sync.Once) whose monitor is the contract\'s own Step operator; TLC exhaustive for a family of configurations (five deliberately broken variants each violate the contract, liveness under fairness). Measurement i of an attribute set has value 4^i so the base-4 digits of every reported sum give each measurement\'s multiplicity; every real execution (TLC behaviours replayed through natural gates: exemplar filter, observable callback, exporter; directed schedules; seeded random scenarios and add/collect storms with manual delta + cumulative readers and periodic readers, ForceFlush, Shutdown) is decoded into id sets and validated by TLC against the total contract MetricSumContract.tla (exactly once, window bounds, cumulative = running total, every reader sees all, monotone).',
+    ref='DESIGN.md §4 C02',
+    note='no hooks: a mutation that splits a critical section is caught by volume only; interval ticks cannot be gated; multiplicities 0..3 decode exactly; asynchronous sums, views and cardinality limits are C08/C12\'s subject; the callback-error interval loss of delta periodic readers is listed in known_findings/C02.json',
+    technique='TLA+ implementation-shaped spec + TLC exhaustive; natural-gate replay of TLC behaviours; TLC trace validation against a contract monitor (base-4 multiplicity encoding)',
+)
+CLAIMS['C06'] = dict(
+    text='BatchLP.tla models the log BatchProcessor one action per critical section (ring queue Enqueue/TryDequeue/Flush, poll goroutine, bufferExporter channel and exportSync consumer, chunking, ForceFlush retry loop and marker, Shutdown) with named deviations; TLC exhaustive for a family of configurations (each deviation found by its NoKnown run, liveness under fairness); TLC -simulate behaviours are replayed on the real processor through the sdk/log verif hook gates, exporter gates and call gates; every real execution (replayed, 12 directed schedules, seeded random scenarios with slow/failing/blocking exporters and caller-side record mutation) is validated by TLC against the total contract monitor BatchLPContract.tla (exactly once modulo overwritten-oldest, per-emitter order, chunk bound, export exclusivity, nothing after Shutdown, clone isolation by content digest).',
+    ref='DESIGN.md §4 C06, App. A.3',
+    note='queue events are logged under the queue lock and never block; on a tree without the sdk/log hooks the check degrades to exit 2; six shutdown-race deviations (D1, D1b, D3-D6) need a design decision and are listed in known_findings/C06.json with narrow kinds, D2 was repaired (c97476e); internal-event traces are validated against the contract only, not against BatchLP.tla itself',
+    technique='TLA+ implementation-shaped spec + TLC exhaustive; gate replay of TLC behaviours through hooks; TLC trace validation against a contract monitor',
 )
